@@ -113,7 +113,7 @@ def one_case(rng, res, degenerate=None):
         if tools is None:
             tree["tools"] = tools = ("d", {})
         tools[1][nm] = ("f", b"#!/bin/sh\nmake\n")
-    name = rng.choice(["d", "my dir", "ü", "loc/build/out", "build", "x~/d"])
+    name = rng.choice(["d", "my dir", "ü", "loc/build/out", "build", "x~/d", "pkg#debug", "q?x=1", "build/pkg#1"])
     # symlinks inside the directory (to files, to directories, dangling; two names for one directory), recorded as
     # in_toto_run records (symlinked directories followed) or as the plain library call does (not followed)
     follow = False
